@@ -156,6 +156,40 @@ fn main() {
             }
             eprintln!("ran {count} fresh/aged pairs, {compared} compared, {bad} runs with mismatch/panic/watchdog");
         }
+        // mqv program <programs.ndjson> <trace-out.ndjson>: fixed request programs against the
+        // deterministic benign broker (every I/O call completes at once, answers in order)
+        "program" => {
+            #[derive(serde::Deserialize)]
+            struct Program {
+                cfg: types::Cfg,
+                steps: Vec<types::Step>,
+                #[serde(default)]
+                connack: Vec<types::Prop>,
+            }
+            let input = std::fs::File::open(&args[2]).expect("open programs");
+            let mut out = std::io::BufWriter::new(std::fs::File::create(&args[3]).expect("create out"));
+            let (mut n, mut bad) = (0usize, 0usize);
+            for line in std::io::BufReader::new(input).lines() {
+                let line = line.unwrap();
+                if line.trim().is_empty() {
+                    continue;
+                }
+                let p: Program = serde_json::from_str(&line).expect("program json");
+                let nobody = std::rc::Rc::new(std::cell::RefCell::new(Vec::new()));
+                let mut dir = rnd::TwinDirector::new(n as u64, p.steps.clone(), rnd::TwinKind::Base, p.cfg.rx, nobody);
+                dir.inner.fixed_acks = true;
+                dir.inner.connack_extra = p.connack.clone();
+                let res = runner::run_scenario(&p.cfg, Box::new(dir));
+                for l in &res.lines {
+                    writeln!(out, "{l}").unwrap();
+                }
+                n += 1;
+                if res.mismatch.is_some() || res.panicked.is_some() || res.watchdog {
+                    bad += 1;
+                }
+            }
+            eprintln!("ran {n} programs, {bad} with mismatch/panic/watchdog");
+        }
         // mqv vectors <vectors.ndjson> <trace-out.ndjson> [rx]
         "vectors" => {
             let input = std::fs::File::open(&args[2]).expect("open vectors");
